@@ -24,6 +24,8 @@ pub fn preds() -> Vec<Value> {
         json!({"+": ["x"]}), json!({"==": []}), json!({"var": "outer"}), json!({">": [{"var": ""}, 0]}), json!({"in": [{"var": ""}, "aé"]}),
         json!({"if": [{"var": ""}, {"log": "P-t"}, {"log": [0]}]}), json!({"/": [1, {"var": ""}]}),
         json!({"===": [{"var": "0.log"}, "LEAK"]}), json!({"==": [{"var": "k.var"}, "k"]}),
+        // an error one lazy level below the predicate root (raised only while the predicate is evaluated)
+        json!({"and": [{"==": [{"var": ""}]}]}), json!({"if": [{"!": [1, 2]}]}), json!({"or": [0, {"+": ["x"]}]}),
     ]
 }
 
@@ -253,6 +255,29 @@ pub fn run(ctx: &mut Ctx) {
             }
         }
     }
+    // rows of equal byte length (33, 40, 64, 65 bytes) that differ at one end only, with predicates that
+    // index into the element: every element is a fresh temporary of the same size as the previous one
+    for len in [33usize, 40, 64, 65] {
+        if !ctx.mine() {
+            continue;
+        }
+        let row = |first: char, last: char| -> String { format!("{}{}{}", first, "-".repeat(len - 2), last) };
+        let rows: Vec<Value> = vec![json!(row('A', 'a')), json!(row('B', 'b')), json!(row('C', 'c')), json!(row('D', 'd'))];
+        let recs: Vec<Value> = rows.iter().map(|r| json!({"name": r, "tags": [r]})).collect();
+        let dd = json!({"rows": rows, "recs": recs});
+        for want in ["A", "C", "D", "Z"] {
+            let lw = want.to_lowercase();
+            for p in [
+                json!({"==": [{"var": 0}, want]}), json!({"==": [{"var": -1}, lw]}), json!({"in": [want, {"var": ""}]}),
+                json!({"==": [{"substr": [{"var": ""}, 0, 1]}, want]}), json!({"==": [{"substr": [{"var": ""}, -1]}, lw]}),
+            ] {
+                triple(ctx, "long-rows:strings", &json!({"var": "rows"}), &p, &dd, Some(true));
+            }
+            for p in [json!({"==": [{"var": "name.0"}, want]}), json!({"==": [{"var": "tags.0.-1"}, lw]}), json!({"some": [{"var": "tags"}, {"==": [{"var": 0}, want]}]})] {
+                triple(ctx, "long-rows:records", &json!({"var": "recs"}), &p, &dd, Some(true));
+            }
+        }
+    }
     // null, empty and non-collections
     if ctx.mine() {
         let colls = vec![
@@ -267,4 +292,6 @@ pub fn run(ctx: &mut Ctx) {
         }
     }
     crate::spaces::render_probes(ctx, &["all", "some", "none"]);
+    crate::spaces::width_probes(ctx);
+    crate::spaces::nested_iteration_probes(ctx);
 }
